@@ -101,7 +101,7 @@ func c01World(sealed bool) *vWorld {
 		NoDB:            true,
 		Ed25519CA:       true,
 		ForeignPeerKey:  true,
-		DenyFPs:         []string{vDeniedFP()},
+		DenyFPs:         vDenyList(),
 	})
 	c01Worlds[key] = w
 	return w
